@@ -33,7 +33,7 @@ PROPS = {
         rule="ctx: every contributor pattern of length 1..6 (thorough 8) over 3 contexts through the real allSameContext/parentSpans "
              "(exhaustive; non-trivial = more than one distinct context); sys: runs of the real processor with 2-5 concurrent callers "
              "in distinct/shared contexts, partial sends, cancellations at random points, a downstream consumer that honours "
-             "cancellation (non-trivial = at least one export; distinct by configuration+outcome)",
+             "cancellation (non-trivial = at least one export; distinct by configuration+outcome); a run in which callers under live contexts never return while other requests had their contexts cancelled is charged to C18 (live-callers-stuck-after-foreign-cancel)",
         trusted_base=BP_TB,
         assumptions=["a context label stands for one context.Context value (the harness gives every context object its own label)",
                      "span links are observed at function level (parentSpans) and through the export_start hook, not through a tracing SDK"],
@@ -62,7 +62,7 @@ PROPS = {
              "the shard's recorded input sequence is replayed through the Coq model and every send (trigger, size) must match; "
              "for runs without a concurrency limit the timed trace (microsecond stamps of the event log) of every shard must be accepted by Batch/Time.v "
              "(time_mismatch: a timer case no earlier than 5 ms before the model's expiry, no event later than expiry + delta) and every (accept, send) time pair of every "
-             "request/export must satisfy send <= accept + timeout + delta (time_propfail); one run in 20 (plus a third of the others) is a steady trickle below send_batch_size",
+             "request/export must satisfy send <= accept + timeout + delta (time_propfail); one run in 20 (plus a third of the others) is a steady trickle below send_batch_size; on the event log of every run with a timer, what a shard still holds when it takes its next event must be below send_batch_size (full-buffer-not-flushed)",
         trusted_base=BP_TB + ["goroutine scheduling latency, the choice of select among ready cases and a send blocked on the semaphore are the parameter delta of well_timed (5x timeout + 200 ms on trickle runs, + 2 s otherwise)",
                               "the clock of the theorem is the time at which the shard loop handles an event; the delay between a caller's Consume call and the loop's receive is not modelled"],
         assumptions=["time stamps are those of the verif event log (monotonic clock, taken under the log's mutex at the hook)"],
@@ -82,7 +82,7 @@ PROPS = {
               dict(harness="bp", name="race",
                    args=lambda tier, seed, casedir, coq: ["race", "--n", str(q(tier, 3000, 100000)), "--seed", str(seed)], coq_timeout=3000)],
         rule="whole-processor runs with metadata_keys of 1-3 (mixed-case) keys, values absent / empty / single / multi-valued, limits 0-3, 3-7 concurrent "
-             "callers racing for the last slots; race: 3000 rounds (thorough 100000) of up to 16 goroutines released together, each the first arrival of a distinct combination, limit 1-3; same-shard relation, export-visible metadata and admission counts evaluated by the Coq model",
+             "callers racing for the last slots; race: 3000 rounds (thorough 100000) of up to 16 goroutines released together, each the first arrival of a distinct combination, limit 1-3; same-shard relation, export-visible metadata and admission counts evaluated by the Coq model; a combination refused for the limit must stay refused: a later request with it that is acknowledged, fails otherwise or never returns is a violation (refused-combination-later-accepted)",
         trusted_base=BP_TB + ["attribute.NewSet equality is modelled as per-key equality of String/StringSlice attributes; sync.Map Load/LoadOrStore and the mutex are atomic events"],
         assumptions=["combination strings are interned by the harness; requests after Shutdown are outside the domain"],
     ),
@@ -94,7 +94,7 @@ PROPS = {
                  args=lambda tier, seed, casedir, coq: ["sys", "--focus", "C11", "--n", "300", "--seed", str(seed)], timeout=3000)],
         rule="whole-processor runs with max_concurrency in {0,1,2,3}, 2-7 callers, random export latencies/failures/cancellations, Shutdown while items are "
              "buffered or callers wait; the recorded event log must be a trace of the protocol LTS (every step enabled) and its response events (recv / send tuples / respond delivered or skipped) a trace of Batch/Resp.v, max in-flight measured at the "
-             "downstream consumer, every export returned before Shutdown returned, 20 s watchdog for deadlocks",
+             "downstream consumer, every export returned before Shutdown returned, 20 s watchdog for deadlocks; an item a shard received that is not exported when Shutdown has returned is charged to the drain clause (accepted-item-not-exported-at-shutdown)",
         trusted_base=BP_TB + ["data-race freedom and goroutine leaks are runtime properties outside the model (goroutine count and -race runs are evidence only)"],
         assumptions=["downstream consumers return (possibly with an error); requests issued after Shutdown was called are outside the domain"],
     ),
@@ -109,7 +109,7 @@ PROPS = {
              "refusal flag, reported request and in-use after every operation compared with the model; memlimit: real producer histories (1-4 trace batches) "
              "decoded by the real consumer under 10 limits from 16 B to 70 MiB, outcome class, errors.Is recognisability, published in-use (own MeterProvider), "
              "equality of decoded telemetry across accepting limits, monotonicity of the first refused batch in the limit; schema-switch cases (a big logs batch, then a small one re-announcing every payload type "
-             "under new schema ids — the memory it needs does not depend on the first) swept over 16 limits: once decodable, decodable under every larger limit",
+             "under new schema ids — the memory it needs does not depend on the first) swept over 16 limits: once decodable, decodable under every larger limit; after a refusal every later valid batch must be decoded or refused with an error recognisable as the memory-limit error (later-refusal-not-recognisable)",
         trusted_base=["modelled, not verified: arrow-go (its recover turning the LimitError panic into Reader.Err, its allocation sequence being independent of the limit), "
                       "Go errors.Is/As over %w / werror.Wrap chains"],
         assumptions=["block sizes and limits below 2^62 (Go ints; the default limit is 70 MiB)", "after a refused batch the sub-stream is desynchronised: later batches only need not panic"],
@@ -121,7 +121,7 @@ PROPS = {
              "thresholds 0..2.5) on the real transform.DictionaryField, index cap / cumulative total / event kind after every op compared with the model; "
              "rec: the real RecordBuilderExt on a 2-column schema (Dictionary8, Dictionary16) driven through the same retry loop as arrow_record.recordBuilder over 1-5 batch "
              "histories with fresh/reused values and externally requested schema updates, outcome per batch (views, attempts, or budget exhausted) compared with the model; "
-             "prod: the real producer under every dictionary limit option x 3 thresholds on streams with unique span names, every dictionary column of every transmitted record inspected",
+             "prod: the real producer under every dictionary limit option x 3 thresholds on streams with unique span names, every dictionary column of every transmitted record inspected; histories with every string column of every record unbounded at once, after an opening batch that leaves all optional struct children absent; every dictionary column of every transmitted record must carry the id under which the overflow detection visits it (prod_mismatch)",
         trusted_base=["modelled, not verified: arrow-go dictionary builders (memo table kept across records of one builder, emptied when the builder is recreated)",
                       "the float comparison card/total < threshold is represented by an exact rational (midpoint rounding argument, DESIGN.md 6/C13)"],
         assumptions=["counts below 2^50", "termination of the retry loop is not part of C13 (C04/C08)"],
@@ -137,7 +137,7 @@ PROPS = {
              "from the library's own helpers and the model must reproduce the ciphertext byte for byte; obf: generated traces/logs/metrics (attributes of every value type incl. "
              "nested lists/maps, empty, one-byte and non-ASCII strings, empty keys) through real processor instances in both modes (encrypt_all; lists with listed and unlisted keys "
              "present, also an empty list), 1-3 documents per instance; input and output aligned by the model to extract the substitution table, which must be one length-preserving "
-             "injective function per instance, and the model run with that table must reproduce the output exactly",
+             "injective function per instance, and the model run with that table must reproduce the output exactly; the generator draws every pdata field of the three signals (flags, ids, dropped counts, exemplars with filtered attributes, metric metadata, bucket lists, quantiles) and every field the processor must not touch is part of the untouched-field markers",
         trusted_base=["SHA-256 and the key are abstracted into an arbitrary length-preserving round function F (the theorems hold for every F)",
                       "pdata Map/Slice semantics (Range order = insertion order, Put overwrites in place, CopyTo replaces) modelled as list operations"],
         assumptions=["attribute maps have distinct keys (pdata invariant)", "list mode: a renamed listed key does not collide with another key of the same map (visible hypothesis of C17_structure_list)"],
@@ -151,7 +151,7 @@ PROPS = {
         rule="gen: every explicit panic(...) call of the producer/consumer packages extracted with go/ast from the current source (must be within the classified baseline); "
              "robust: histories of 1-5 generated batches (traces, logs, metrics, or interleaved) with degenerate shapes (all-zero / empty bucket lists and bounds, empty metrics, "
              "unset values, empty keys, nested values, boundary numerics) on one producer, each outcome classified ok/error/panic(site); boundary: 65535 and 65537 attribute-bearing spans, "
-             "65537 log records, 65537 metrics, a warm producer given 65537 resources and then a valid batch, the dictionary reset regime at an 8-bit limit",
+             "65537 log records, 65537 metrics, a warm producer given 65537 resources and then a valid batch, the dictionary reset regime at an 8-bit limit; a third of the histories draw strings that are not valid UTF-8; a tenth open with an all-zero batch; boundary cases with extreme sizes (70 KB names, 2 MB values, 20001 children of one item) under default, WithSchemaStats and all diagnostic options",
         trusted_base=["the encoders' column appends are not modelled statement by statement (result classes are the tie); the panic-site extractor (go/ast) and the classification by rule in Stream/PanicBaseline.v",
                       "implicit panics (nil dereference, index, type assertion) are found by the harness only"],
         assumptions=["optional-field discovery needs at most 3 rebuilds on the prototype schemas (depth of optional nesting), leaving 2 of the 5 allowed retries to dictionary events"],
@@ -162,7 +162,7 @@ PROPS = {
         rule="for each of the three signals: a valid prefix of 1-3 batches through the real producer/consumer, then the next batch altered by ~21 fault lists (every single fault kind: relabel to an "
              "unknown / another / the main type, drop, duplicate, swap, reverse, empty, unknown schema id, stale schema id when the stream has one; pairs of random faults; the unaltered batch), each on "
              "a fresh consumer that consumed the prefix; then one more valid batch (only the consumer's own stream table must not crash there). The IPC library's answers per payload are logged by the "
-             "verif hook and fed to the Coq model, whose verdict must be compatible with the real result",
+             "verif hook and fed to the Coq model, whose verdict must be compatible with the real result; the main record under every other payload type of the signal (success with nothing = violation), bare-span batches",
         trusted_base=["arrow-go IPC reader behaviour on damaged payloads is an input of the model (observed through the verif hook in Consumer.Consume)",
                       "the table decoders' verdict is not observed: the model may say decoded/nothing where the real consumer reports a decoding error"],
         assumptions=["payload-level faults only; sending one sub-stream's bytes under another live schema id (splicing) and bit flips are outside the domain",
@@ -174,7 +174,7 @@ PROPS = {
         rule="stream histories of 2-7 batches on one producer: one signal or interleaved traces/logs/metrics, options default / no zstd / no dictionary / 8-bit dictionary limit (overflow) / 8-bit limit with "
              "reset threshold 1.0 (reset), batches large enough to cross the dictionary limit; per payload the (type, stream key = [prefix:]SchemaToID) is fed to the model whose predicted batch ids and schema "
              "ids must equal the observed ones; the property is evaluated on the real batches (first payload main, types unique, related payloads non-empty, schema id -> (type, key) a function, closed ids not "
-             "reused) and an independent ipc.Reader per schema id must decode every payload to the record that was written",
+             "reused) and an independent ipc.Reader per schema id must decode every payload to the record that was written; statistics reads (GetAndResetStats) between batches are ops of the history given to the model (Batch / ResetStats)",
         trusted_base=["arrow-go IPC writer/reader (one writer per live schema id; dictionary deltas/replacements; zstd) — validated on every run by the independent reader"],
         assumptions=["a stream key belongs to one payload type (consistent_inputs): main keys are schema signatures of different schemas, related keys carry a per-type prefix"],
     ),
@@ -183,7 +183,7 @@ PROPS = {
         rule="stream histories of 1-5 trace batches (1-7 spans per scope, 0-2 resources x 0-2 scopes, events, links, every AnyValue type incl. nested lists/maps, empty keys and unset values, boundary numerics, "
              "near-identical resources/scopes differing only in value type or embedded delimiters, repeated and fresh strings; a quarter of the histories low-entropy: every name/key/value/timestamp from a pool of one or two, "
              "so sorted groups span tables and repeat across batch boundaries; 30% of the histories under producer options — 8-bit dictionary limit with reuse (reset) or without (overflow), no dictionary, no zstd — with sliding-window name batches) through the real producer and consumer, the consumer lagging 0-2 batches behind the producer (decoded in stream order), plus one long stream per run (1200 small batches under a 512 KiB consumer memory limit, Go-side comparison); per batch (a) the equivalence predicate of Otlp/Equiv.v "
-             "evaluated in Coq on real input vs real output, (a') the real ResourceID/ScopeID string of every generated resource and scope compared byte for byte with Otlp/Ids.v (atom renderers tabulated per case), (b) the real attribute tables and id columns decoded by the Coq model and compared with what the real consumer attached to every row, and re-encoded to the real parent-id column, (c) the real span-event and span-link tables (ids, name / trace-id keyed parent ids, their 32-bit attribute tables) decoded by the model: per span the children and their attributes must be those the real consumer attached",
+             "evaluated in Coq on real input vs real output, (a') the real ResourceID/ScopeID string of every generated resource and scope compared byte for byte with Otlp/Ids.v (atom renderers tabulated per case), (b) the real attribute tables and id columns decoded by the Coq model and compared with what the real consumer attached to every row, and re-encoded to the real parent-id column, (c) the real span-event and span-link tables (ids, name / trace-id keyed parent ids, their 32-bit attribute tables) decoded by the model: per span the children and their attributes must be those the real consumer attached; a tenth of the histories open with all-zero batches (typed zeros everywhere); attribute values include near-copies of earlier ones differing at one nested leaf by a confusable value (empty bytes / unset, 0.0 / -0.0, 1 / 1.0 / the string 1); extreme sizes and all-columns-distinct batches (Go-side comparison)",
         trusted_base=["modelled, not verified: arrow-go (builders, IPC transport, dictionaries), zstd, the CBOR byte codec (nested values are read back through common.Deserialize)",
                       "the scalar columns of the main tables are not modelled cell by cell (tie: equivalence predicate on real I/O)",
                       "identifier injectivity assumes (explicit hypothesis Ids.atoms_ok) that strconv.Quote output is self-delimiting and FormatInt/FormatUint/FormatFloat/FormatBool/hex outputs are uniquely decodable before , ] } | or the end",
@@ -216,7 +216,7 @@ PROPS = {
         rule="gen: the exported With* options and ordering variants of pkg/config extracted from the current source (must be within the known baseline); options: per case one choice of dictionary limit "
              "(default, none, 8/16/32/64 bit) x initial index x reset threshold (unset, 0, 0.3, 1, 5) x compression (default, zstd, none) x every OrderSpanBy x every OrderAttrs16By x every OrderAttrs32By "
              "(each variant at least once, then random), a history of 2-4 batches mixing generated telemetry with dictionary-pressure batches (90-330 fresh names, repeated 1-3 times: overflow and reset regimes, "
-             "crossing 255 within a batch and over the history), decoded by a DEFAULT consumer; equivalence predicate evaluated in Coq on real input/output (batches over 150 items by its Go mirror only)",
+             "crossing 255 within a batch and over the history), decoded by a DEFAULT consumer; equivalence predicate evaluated in Coq on real input/output (batches over 150 items by its Go mirror only); a quarter of the histories open with an all-zero batch (optional columns still absent)",
         trusted_base=["Arrow transport assumption: index widths, dictionary overflow/reset and zstd do not change the logical record (validated by the independent reader of C12 on every run)",
                       "the option extractor (go/ast) and the classification in Stream/OptionsBaseline.v"],
         assumptions=["diagnostic options (statistics printing) and allocator/observer plumbing are not content options", "cardinalities crossing 65,535 are exercised in the thorough tier only"],
